@@ -11,6 +11,8 @@
 #include <functional>
 #include <mutex>
 #include <thread>
+#include <cstddef>
+#include <vector>
 
 namespace verifev {
     inline void ev(const char* kind, const char* name, const void* obj)
@@ -27,31 +29,138 @@ namespace verifev {
         std::fflush(f);
     }
 
-    /** declared right after the lock_guard it describes: constructed after the mutex is taken,
-     *  destroyed before it is released */
-    class Scope {
+    /** a guard that is currently described by a Scope of this thread */
+    class ScopeBase {
     public:
-        template<class Guard>
-        Scope(const char* name, const void* obj, const Guard& /*the guard that must exist*/) : mName(name), mObj(obj) {
-            ev("lock", mName, mObj);
+        ScopeBase(const char* name, const void* obj) : mName(name), mObj(obj), mReleased(false) {}
+        virtual ~ScopeBase() {}
+        virtual bool owns() const = 0;
+        /** the guard may have been released (unique_lock::unlock) or re-taken since the last look */
+        void revalidate() {
+            const bool o = owns();
+            if (!o && !mReleased) {
+                mReleased = true;
+                ev("unlock", mName, mObj);
+            } else if (o && mReleased) {
+                mReleased = false;
+                ev("lock", mName, mObj);
+            }
         }
-        ~Scope() {
-            ev("unlock", mName, mObj);
+    protected:
+        const char* mName;
+        const void* mObj;
+        bool mReleased;
+    };
+
+    inline std::vector<ScopeBase*>& activeScopes()
+    {
+        static thread_local std::vector<ScopeBase*> v;
+        return v;
+    }
+
+    /** an access to a guarded member: first bring the lock events up to date with the real guards */
+    inline void acc(const char* kind, const char* name, const void* obj)
+    {
+        for (ScopeBase* s : activeScopes())
+            s->revalidate();
+        ev(kind, name, obj);
+    }
+
+    template<class Guard> struct Owns {
+        static bool get(const Guard&) {
+            return true; // std::lock_guard: held for its whole lifetime
+        }
+    };
+    template<class M> struct Owns<std::unique_lock<M>> {
+        static bool get(const std::unique_lock<M>& g) {
+            return g.owns_lock();
+        }
+    };
+
+    /** declared right after the guard it describes: constructed after the mutex is taken,
+     *  destroyed before it is released; an early unlock()/re-lock() of a unique_lock is seen at the
+     *  next logged access */
+    template<class Guard>
+    class Scope : public ScopeBase {
+    public:
+        Scope(const char* name, const void* obj, const Guard& guard) : ScopeBase(name, obj), mGuard(guard) {
+            mReleased = !owns();
+            if (!mReleased)
+                ev("lock", mName, mObj);
+            activeScopes().push_back(this);
+        }
+        ~Scope() override {
+            std::vector<ScopeBase*>& a = activeScopes();
+            for (std::size_t i = a.size(); i > 0; --i) {
+                if (a[i - 1] == this) {
+                    a.erase(a.begin() + static_cast<std::ptrdiff_t>(i - 1));
+                    break;
+                }
+            }
+            if (owns() && !mReleased)
+                ev("unlock", mName, mObj);
+            else if (!owns() && !mReleased)
+                ev("unlock", mName, mObj);
+        }
+        bool owns() const override {
+            return Owns<Guard>::get(mGuard);
         }
         Scope(const Scope&) = delete;
         Scope& operator=(const Scope&) = delete;
     private:
+        const Guard& mGuard;
+    };
+
+    /** a member of an element of a guarded container: every read and write of the element's member is
+     *  logged as an access to the container that owns the element (own()); copies are not owned */
+    template<class T>
+    class Tracked {
+    public:
+        Tracked() : mValue(), mOwner(nullptr), mName("") {}
+        explicit Tracked(T v) : mValue(v), mOwner(nullptr), mName("") {}
+        Tracked(const Tracked& o) : mValue(o.get()), mOwner(nullptr), mName("") {}
+        Tracked& operator=(const Tracked& o) {
+            set(o.get());
+            return *this;
+        }
+        Tracked& operator=(T v) {
+            set(v);
+            return *this;
+        }
+        operator T() const {
+            return get();
+        }
+        void own(const void* owner, const char* name) {
+            mOwner = owner;
+            mName = name;
+        }
+    private:
+        T get() const {
+            if (mOwner)
+                acc("rd", mName, mOwner);
+            return mValue;
+        }
+        void set(T v) {
+            if (mOwner)
+                acc("wr", mName, mOwner);
+            mValue = v;
+        }
+        T mValue;
+        const void* mOwner;
         const char* mName;
-        const void* mObj;
     };
 }
 #define VERIF_EV_CAT2(a, b) a ## b
 #define VERIF_EV_CAT(a, b) VERIF_EV_CAT2(a, b)
-#define VERIF_EV(kind, name) verifev::ev(kind, name, this)
-#define VERIF_EV_LOCKED(name, guard) const verifev::Scope VERIF_EV_CAT(verifEvScope, __LINE__)(name, this, guard)
+#define VERIF_EV(kind, name) verifev::acc(kind, name, this)
+#define VERIF_EV_LOCKED(name, guard) verifev::Scope<decltype(guard)> VERIF_EV_CAT(verifEvScope, __LINE__)(name, this, guard)
+#define VERIF_EV_OWN(member, name) (member).own(this, name)
+#define VERIF_TRACKED(T) verifev::Tracked<T>
 #else
 #define VERIF_EV(kind, name) ((void)0)
 #define VERIF_EV_LOCKED(name, guard) ((void)0)
+#define VERIF_EV_OWN(member, name) ((void)0)
+#define VERIF_TRACKED(T) T
 #endif
 
 #endif
